@@ -385,6 +385,14 @@ pub fn run_sfs_transport(args: &[&str], bytes: &[u8], transport: Transport, suff
 /// Runs `sfs args... <fifo>` where `<fifo>` is a named pipe into which `bytes` are written by a
 /// helper thread. If the subject never opens the FIFO the helper is released afterwards.
 pub fn run_sfs_fifo(args: &[&str], bytes: &[u8], suffix: &str, scratch: &Scratch) -> Out {
+    let mut a: Vec<&str> = args.to_vec();
+    a.push("{FIFO}");
+    run_sfs_fifo_at(&a, bytes, suffix, Stdin::Null, scratch)
+}
+
+/// Runs `sfs` with every `{FIFO}` argument replaced by the path of a named pipe into which `bytes`
+/// are written by a helper thread; `stdin` is delivered as for `run_sfs`.
+pub fn run_sfs_fifo_at(args: &[&str], bytes: &[u8], suffix: &str, stdin: Stdin, scratch: &Scratch) -> Out {
     use std::os::unix::fs::OpenOptionsExt;
     use std::sync::{atomic::AtomicBool, Arc};
     let path = scratch.path(&format!(".fifo{suffix}"));
@@ -394,17 +402,29 @@ pub fn run_sfs_fifo(args: &[&str], bytes: &[u8], suffix: &str, scratch: &Scratch
         eprintln!("ENGINE: mkfifo {} failed", path.display());
         std::process::exit(2);
     }
-    let mut a: Vec<&str> = args.to_vec();
-    a.push(path.to_str().unwrap());
+    let a: Vec<&str> = args.iter().map(|x| if *x == "{FIFO}" { path.to_str().unwrap() } else { *x }).collect();
     let mut cmd = Command::new(SFS_BIN);
     cmd.args(&a)
         .env_clear()
         .env("SFS_ALLOW_STDIN", "1")
         .env("RUST_BACKTRACE", "0")
         .current_dir(&scratch.dir)
-        .stdin(Stdio::null())
         .stdout(Stdio::piped())
         .stderr(Stdio::piped());
+    let mut tmp: Option<PathBuf> = None;
+    match stdin {
+        Stdin::Null => {
+            cmd.stdin(Stdio::null());
+        }
+        Stdin::Bytes(b) => {
+            let p = scratch.file(".stdin", b);
+            cmd.stdin(fs::File::open(&p).expect("open stdin file"));
+            tmp = Some(p);
+        }
+        Stdin::File(p) => {
+            cmd.stdin(fs::File::open(p).expect("open stdin file"));
+        }
+    }
     // SAFETY: only async-signal-safe libc calls between fork and exec.
     unsafe {
         cmd.pre_exec(|| {
@@ -444,6 +464,9 @@ pub fn run_sfs_fifo(args: &[&str], bytes: &[u8], suffix: &str, scratch: &Scratch
     }
     let _ = writer.join();
     let _ = fs::remove_file(&path);
+    if let Some(p) = tmp {
+        let _ = fs::remove_file(p);
+    }
     Out {
         code: out.status.code(),
         signal: out.status.signal(),
